@@ -2,7 +2,7 @@
    RemoveUselessStates, GetCandidateTree.  Nothing but statements closed by [exact];
    the proofs are in NfaProofs.v (word semantics and deciders: Lang.v). *)
 From Coq Require Import List NArith Bool.
-From V Require Import Sem Prod Incl TrimDefs Lang NfaDefs NfaProofs.
+From V Require Import Sem Prod Incl TrimDefs Lang NfaDefs NfaProofs NfaCandProofs.
 
 (* Union through the reported translation maps accepts exactly the union, for every valid pair of maps *)
 Theorem C10_nunion_lang : forall hA hB A B, valid_nunion hA hB A B ->
@@ -47,6 +47,13 @@ Theorem C10_ncandidate_nonempty : forall A R, ncandidate_ok A R = true -> (exist
 Proof. exact ncandidate_nonempty. Qed.
 Print Assumptions C10_ncandidate_nonempty.
 
+(* the breadth-first search as repaired (a final start state ends the search; otherwise the first final
+   successor), followed by RemoveUselessStates, returns such a result for every NFA; its structural
+   fuel is never exhausted *)
+Theorem C10_ncandidate_model_ok : forall A, ncandidate_ok A (ncandidate A) = true.
+Proof. exact ncandidate_correct. Qed.
+Print Assumptions C10_ncandidate_model_ok.
+
 (* the gates evaluated on libvata's output decide exactly the property clauses *)
 Theorem C10_gate_nunion : forall A B R, gate_nunion A B R = true <-> forall w, waccepts R w <-> waccepts A w \/ waccepts B w.
 Proof. exact gate_nunion_spec. Qed.
@@ -77,6 +84,8 @@ Theorem C10_model_nunreach_passes : forall A, gate_nsame A (nunreach A) = true.
 Proof. exact model_nunreach_passes. Qed.
 Theorem C10_model_nuseless_passes : forall A, gate_nsame A (nuseless A) = true.
 Proof. exact model_nuseless_passes. Qed.
+Theorem C10_model_ncandidate_passes : forall A, gate_ncandidate A (ncandidate A) = true.
+Proof. exact ncandidate_gate. Qed.
 
 (* the code as it was before the fix: commits (D7, D13): faithful models violate the property *)
 Theorem C10_isect_refuted :
